@@ -72,6 +72,10 @@ def label_desc(draw, labs, allow_absent=True):
         return {"k": "mask", "v": draw(st.lists(st.booleans(), min_size=n, max_size=n)), "as": draw(st.sampled_from(["array", "list"]))}
     where = draw(st.sampled_from(["below", "between", "above"]))
     ab = gen.absent_label(labs, kind, where)
+    if kind == "i" and n and draw(st.booleans()):
+        # a non-integral query on an integer axis: absent, although truncating or rounding it would hit a label
+        ab = draw(st.sampled_from(labs)) + draw(st.sampled_from([0.5, -0.5, 0.25, 0.75]))
+        where = "between"
     if k == "absent-scalar":
         return {"k": "scalar", "v": ab, "absent": where}
     v = draw(st.lists(st.sampled_from(labs), min_size=0, max_size=2)) if n else []
@@ -138,7 +142,7 @@ def strategy(tier):
 
 def enumerate_cases(tier):
     for kind, base in (("i", [1, 2, 3, 5]), ("s", ["a", "b", "c", "e"]), ("f", [0.5, 1.5, 2.5, 4.5])):
-        ab = {"i": [0, 4, 9], "s": ["A", "d", "zz"], "f": [0.0, 3.5, 9.0]}[kind]
+        ab = {"i": [0, 4, 9, 2.5, 1.75], "s": ["A", "d", "zz"], "f": [0.0, 3.5, 9.0]}[kind]
         for perm in itertools.permutations(base):
             yield "1d-permutations-of-4-labels", {"mode": "sweep", "labels": list(perm), "queries": list(perm) + ab}
 
